@@ -213,6 +213,38 @@ def index_render(i: int, n: int) -> bool:
         return ok(not (0 <= i < n) and not p.exists(doc))
 
 
+BIG = ["9007199254740991", "9007199254740990", "4294967296", "2147483648", "18446744073709551616"[:16], "900719925474099"]
+
+
+def limit_tokens(bi: int, n: int, v: int, ue: bool) -> bool:
+    """Digit tokens up to and including the index limit (2**53 - 1): as a member name the token reaches that member; applied
+    to an array (shorter than that) it is an index out of range - a resolution error, the default, exists() false.
+
+    pre: 0 <= bi < len(BIG)
+    pre: 0 <= n <= 2
+    post: _
+    """
+    t = pick(BIG, bi)
+    doc = {"o": {"zz": 0, t: v}, "a": [1, 2][:n] if n < 2 else [1, 2]}
+    try:
+        p = JSONPointer("/o/" + t, unicode_escape=ue)
+        q = JSONPointer("/a/" + t, unicode_escape=ue)
+    except JSONPointerError as e:
+        return ok(why(False, "a token within the index limit is refused", t, type(e).__name__, str(e)))
+    try:
+        got = p.resolve(doc)
+    except JSONPointerError as e:
+        return ok(why(False, "member named by a digit token is not reached", t, str(e)))
+    if not why(_is_node(got, v) and p.exists(doc), "member named by a digit token", t, got):
+        return ok(False)
+    try:
+        q.resolve(doc)
+        return ok(why(False, "index beyond the array resolved", t))
+    except JSONPointerResolutionError:
+        pass
+    return ok(why(q.resolve(doc, default=SENTINEL) is SENTINEL and not q.exists(doc), "default / exists on an index out of range", t))
+
+
 TEXTS = [("/a\\u0062", ["ab"]), ("/x%20y", ["x y"]), ("/a~1b/%7E0", ["~0", "~"]), ("/\\u00e9", ["é"]), ("/%2F", ["/"]), ("/a b", []), ("/ab", []),
          ("/\\ud83d\\ude00", ["\U0001F600"]), ("/%41/1", ["A"]), ("/a%5Cu0062", ["a\\u0062", "ab"])]
 
